@@ -11,6 +11,23 @@ package server
 //
 //	sched-trace <maxRunners> <maxQueue> <defaultSession> <cpu> <ngpus> | <ev> ; <obs> | <ev> ; <obs> ...
 //
+// Events that are not enabled when their turn comes (`loaddone` of a runner that is not loading, `done` of an unknown
+// or finished request, `advance` while a goroutine is parked on a mutex, ...) are skipped and do not appear in the
+// line; `advance <ms>` reports the fake time that actually passed (it is cut short after 256 timer hops or when a
+// goroutine parks on a mutex).  So the line is always exactly what was executed, and replaying it reproduces it.
+//
+// L2 kinds: c01-closed-in-use c01-double-close c01-grant-closed c02-double-reply c02-blocked-submit c02-unanswered
+// c02-not-drained c11-over-limit c11-two-per-model c11-no-reuse c11-busy-victim (SCHED_PROTOCOL.md) and, in addition,
+// c02-deadlock-queue / c02-deadlock-lockorder (goroutines parked on a mutex for good, see monitors()).
+// c02-unanswered is evaluated at every quiescent point at which no load is in flight, every request that holds a
+// runner is done and 300 ms of fake time have passed since the last event (at the very end of a drained trace every
+// request is done, so "unanswered and not cancelled" could never be observed there).
+//
+// Environment: VERIF_N (default 300), VERIF_SEED, VERIF_REPLAY=<file of script lines>, VERIF_SHRINK=1 (greedy shrinking of
+// one script per L2 kind -> shrunk.txt in VERIF_OUT), VERIF_SCHED_CFG="<maxRunners> <maxQueue> <defSess> <cpu> <ngpus>"
+// (pins configuration fields of generated traces, `-` = random), VERIF_SCHED_LOG=<file> (the scheduler's debug log).
+// Not meant for -race: at quiescent points with mutex-parked goroutines the driver reads scheduler state unlocked.
+//
 // Quiescence.  synctest.Wait() alone cannot be used: sched.go holds runnerRef.refMu across
 // WaitUntilRunning (and loadedMu+refMu across channel sends in expireRunner), and a goroutine parked
 // on a sync.Mutex is NOT "durably blocked" for synctest — Wait() would hang and fake time would never
@@ -23,17 +40,19 @@ package server
 // goroutine parks on a mutex (which would freeze fake time for ever); it stops early (and reports the
 // time actually advanced) when that happens.
 //
-// Determinism.  Inside a child GOMAXPROCS is 1 and the GC is off, so goroutine hand-offs are reproducible.  Two things
+// Determinism.  Inside a child GOMAXPROCS is 1 and the GC is off, so goroutine hand-offs are reproducible.  Three things
 // remain random BY DESIGN in the Go runtime: the poll order of `select` (processCompleted's select over finishedReqCh /
-// expiredCh, processPending's over pendingReqCh / unloadedCh) and the firing order of fake-time timers due at the same
-// instant (two reschedDelay re-queuers started in one cascade).  Both orders are legal behaviours which the model
-// covers as nondeterminism, but they make ~2 of 1000 generated traces differ between two runs of the same seed.
-// They disappear (checked: 6 runs x 5000 traces byte-identical) when the check adds two one-line patches of the harness
-// toolchain's runtime to the overlay (absolute paths pass through vlib's overlay mapping unchanged):
+// expiredCh, processPending's over pendingReqCh / unloadedCh), the firing order of fake-time timers due at the same
+// instant (two reschedDelay re-queuers started in one cascade), and the start of a map iteration (updateFreeSpace
+// locks the runners' refMu in the iteration order of `loaded`).  All outcomes are legal behaviours which the model
+// covers as nondeterminism, but they make ~2-3 of 1000 generated traces differ between two runs of the same seed.
+// They disappear (checked: 5 runs x 5000 traces byte-identical, ops and l2) when the check adds three one-line patches
+// of the harness toolchain's runtime to the overlay (absolute paths pass through vlib's overlay mapping unchanged):
 //     $GOROOT/src/runtime/select.go:  `j := cheaprandn(uint32(norder + 1))` -> `j := uint32(norder)`
 //     $GOROOT/src/runtime/time.go:    `t.rand = cheaprand()`                -> `t.rand = 0`
-// (first build ~45 s, cached afterwards).  The driver reports which mode it runs in: stats
-// runtime_select_deterministic / runtime_timer_ties_deterministic.
+//     $GOROOT/src/internal/runtime/maps/table.go: `it.entryOffset = rand()` -> `= 0`, `it.dirOffset = rand()` -> `= 0`
+// (first build ~45 s, cached afterwards).  The driver reports which mode it runs in: stats runtime_select_deterministic,
+// runtime_timer_ties_deterministic, runtime_map_iteration_deterministic.
 //
 // Process structure.  A trace whose goroutines cannot all be made to exit would make synctest.Test
 // panic (or hang).  The parent test therefore runs the traces in child processes (this same test binary,
@@ -320,6 +339,7 @@ type schedRun struct {
 
 type schedCensus struct {
 	others, active, mutex, sleeping, durable int
+	schedSend                                int
 	activeDesc, mutexDesc                    string
 }
 
@@ -416,13 +436,26 @@ func (r *schedRun) scan(b []byte, c *schedCensus, ids map[string]bool) {
 					}
 					fn = fn[:j]
 				}
-				if c.mutexDesc != "" {
-					c.mutexDesc += ","
+				// keep the list sorted: the order of goroutines in the dump is not reproducible
+				l := append(strings.Split(c.mutexDesc, ","), string(fn))
+				if c.mutexDesc == "" {
+					l = l[1:]
 				}
-				c.mutexDesc += string(fn)
+				sort.Strings(l)
+				c.mutexDesc = strings.Join(l, ",")
 			}
 		case strings.HasPrefix(st, "sleep"):
 			c.sleeping++
+		case strings.HasPrefix(st, "chan send"):
+			c.durable++
+			// a scheduler goroutine parked on a send: a full scheduler channel (their capacity is OLLAMA_MAX_QUEUE)
+			blk := b
+			if e := bytes.Index(blk, []byte("\n\n")); e >= 0 {
+				blk = blk[:e]
+			}
+			if bytes.Contains(blk, []byte("ollama/server.(*Scheduler)")) {
+				c.schedSend++
+			}
 		case strings.HasSuffix(st, "(durable)") || st == "chan receive (nil chan)" || st == "chan send (nil chan)" ||
 			st == "select (no cases)" || st == "sync.Cond.Wait":
 			c.durable++
@@ -989,8 +1022,14 @@ func (r *schedRun) monitors(e schedEv, subq *schedReq, sn schedSnap) {
 				inflight = true
 			}
 		}
-		if !inflight {
-			r.flag("c02-deadlock", fmt.Sprintf("%d goroutines parked on a mutex (%s) with no load in flight", r.cen.mutex, r.cen.mutexDesc))
+		if !inflight && r.cen.schedSend > 0 {
+			// e.g. expireRunner holds loadedMu+refMu and sends on the full expiredCh, whose only consumer needs one of them
+			r.flag("c02-deadlock-queue", fmt.Sprintf("%d goroutines parked on a mutex (%s) and %d scheduler goroutines parked on a send to a full channel (capacity %d), no load in flight",
+				r.cen.mutex, r.cen.mutexDesc, r.cen.schedSend, r.cfg.maxQueue))
+		} else if !inflight {
+			// a cycle of mutexes only: lock-order inversion (loadedMu -> refMu in expireRunner / updateFreeSpace,
+			// refMu -> loadedMu in processCompleted's expired case)
+			r.flag("c02-deadlock-lockorder", fmt.Sprintf("%d goroutines parked on a mutex (%s), none parked on a channel send, no load in flight", r.cen.mutex, r.cen.mutexDesc))
 		}
 	}
 	// liveness: nothing in flight, nobody holds a runner, all helper delays have passed: every request that is
@@ -1220,7 +1259,7 @@ func schedChild(t *testing.T) {
 		}
 	}
 	defer slog.SetDefault(old)
-	defer runtime.GOMAXPROCS(runtime.GOMAXPROCS(1)) // no parallelism inside the bubble: deterministic hand-offs
+	defer runtime.GOMAXPROCS(runtime.GOMAXPROCS(1))  // no parallelism inside the bubble: deterministic hand-offs
 	defer debug.SetGCPercent(debug.SetGCPercent(-1)) // no GC workers perturbing the run queue inside a trace
 	for _, k := range []string{"OLLAMA_MAX_LOADED_MODELS", "OLLAMA_MAX_QUEUE", "OLLAMA_KEEP_ALIVE", "OLLAMA_NUM_PARALLEL", "OLLAMA_SCHED_SPREAD"} {
 		t.Setenv(k, "") // restored when the test ends
@@ -1370,7 +1409,16 @@ func schedEmit(out *zzverif.Out, recs []schedRec) {
 // schedRuntimeDeterminism reports whether the two places where the Go runtime is random ON PURPOSE have been made
 // deterministic in this build (see the header comment): the poll order of select, and the firing order of fake-time
 // timers that are due at the same instant.
-func schedRuntimeDeterminism(t *testing.T) (sel, timers bool) {
+func schedRuntimeDeterminism(t *testing.T) (sel, timers, maps bool) {
+	mp := map[int]int{1: 1, 2: 2, 3: 3, 4: 4}
+	firsts := map[int]bool{}
+	for i := 0; i < 64; i++ {
+		for k := range mp {
+			firsts[k] = true
+			break
+		}
+	}
+	maps = len(firsts) == 1
 	a, b := make(chan int, 1), make(chan int, 1)
 	first := 0
 	for i := 0; i < 64; i++ {
@@ -1394,7 +1442,7 @@ func schedRuntimeDeterminism(t *testing.T) (sel, timers bool) {
 			orders[<-got+<-got] = true
 		})
 	}
-	return sel, len(orders) == 1
+	return sel, len(orders) == 1, maps
 }
 
 func TestVerifSched(t *testing.T) {
@@ -1408,15 +1456,18 @@ func TestVerifSched(t *testing.T) {
 	}
 	out := zzverif.NewOut()
 	defer out.Close()
-	if sel, tim := schedRuntimeDeterminism(t); true {
+	if sel, tim, mp := schedRuntimeDeterminism(t); true {
 		if sel {
 			out.Count("runtime_select_deterministic")
 		}
 		if tim {
 			out.Count("runtime_timer_ties_deterministic")
 		}
-		if !sel || !tim {
-			t.Logf("note: Go runtime randomisation is active (select=%v timer ties=%v): about 2 traces per 1000 can differ between runs", !sel, !tim)
+		if mp {
+			out.Count("runtime_map_iteration_deterministic")
+		}
+		if !sel || !tim || !mp {
+			t.Logf("note: Go runtime randomisation is active (select=%v timer ties=%v map iteration=%v): 2-3 traces per 1000 can differ between runs", !sel, !tim, !mp)
 		}
 	}
 	var jobs []schedJob
